@@ -50,6 +50,8 @@ pub struct Profile {
     pub p_write_zero: f64,
     /// sp is set from another register for a few stores and then restored from a copy
     pub p_sp_excursion: f64,
+    /// the top-level code keeps values in a stack frame of its own
+    pub p_main_frame: f64,
     /// layout: `j main` first, then the functions, main last (nothing behind its exit)
     pub p_functions_first: f64,
     /// a function gets an error-exit block behind its epilogue (the exit ecall is then the last
@@ -89,6 +91,7 @@ impl Profile {
             p_indirect_call: 0.0,
             p_write_zero: 0.0,
             p_sp_excursion: 0.0,
+            p_main_frame: 0.3,
             p_functions_first: 0.25,
             p_tail_exit: 0.12,
             p_csr: 0.0,
@@ -131,6 +134,7 @@ impl Profile {
             p_indirect_call: 0.0,
             p_write_zero: 0.04,
             p_sp_excursion: 0.03,
+            p_main_frame: 0.3,
             p_functions_first: 0.25,
             p_tail_exit: 0.12,
             p_csr: 0.03,
@@ -1582,11 +1586,24 @@ impl<'a> G<'a> {
             no_ecalls: 0,
         };
         self.emit_label("main");
+        if self.rng.chance(self.prof.p_main_frame) {
+            // a frame of its own below the initial stack pointer (never given back: the program exits)
+            let words = 1 + self.rng.below(6) as i32;
+            f.frame = 4 * words;
+            f.spare = (0..words).map(|k| 4 * k).collect();
+            f.st.defined |= bit(SP);
+            self.emit(Ins::addi(SP, SP, -f.frame));
+        }
         let v = self.imm32();
         self.emit(Ins::li(acc, v));
         f.st.defined |= bit(acc);
         self.sync(&mut f);
         f.st.pending |= bit(acc);
+        if f.frame > 0 {
+            // (the frame is used at least once: a stack pointer that is moved and never used is an unused value)
+            let off = *self.rng.pick(&f.spare);
+            self.emit(Ins::sw(acc, off, SP));
+        }
         self.block(&mut f);
         // every function is called at least once from the top level, in random order
         let mut order: Vec<usize> = (0..self.sigs.len()).collect();
